@@ -191,7 +191,7 @@ SRPM_A = "glibc-0:2.18-11.fc20.src"
 SRPM_B = "bash-0:4.2-1.fc20.src"
 
 
-def rpms_old_src(sym, layout):
+def rpms_old_src(sym, layout, twice=False):
     """rpms 0.3 documents: every source RPM is re-filed under each binary arch that lists packages built from it"""
     manifest = {}
     expect = {}
@@ -214,7 +214,12 @@ def rpms_old_src(sym, layout):
     doc = {"header": {"version": "0.%d" % minor},
            "payload": {"compose": {"id": "Fedora-20-20131212.0", "type": "production", "date": "20131212", "respin": 0}, "manifest": manifest}}
     m = Rpms()
-    m.loads(json.dumps(doc))
+    if twice:
+        # the caller parsed the file itself and hands the same document to two objects: the reader leaves it as it was
+        Rpms().deserialize(doc)
+        m.deserialize(doc)
+    else:
+        m.loads(json.dumps(doc))
     sym.cover("loaded")
     for variant, arches, has_src in layout:
         sym.check("arches[%s]" % variant, sorted(m.rpms[variant].keys()) == sorted(arches))
@@ -265,6 +270,8 @@ def jobs(tier, seed):
         for ws in (True, False):
             out.append({"harness": "images_old_src", "params": {"layout": lay, "with_subvariant": ws}})
         out.append({"harness": "rpms_old_src", "params": {"layout": lay}})
+        if lay in (LAYOUTS[1], LAYOUTS[4]):
+            out.append({"harness": "rpms_old_src", "params": {"layout": lay, "twice": True}})
     return out
 
 
